@@ -36,6 +36,8 @@ class Ledger:
         self.author = {}          # key -> author of the last substantive change
         self.introduced = {}      # key -> set(authors who ever wrote this exact content)   (for decoys)
         self.decoys = set()       # keys that are not unique by construction (blank / duplicated)
+        self.ws_touch = {}        # key -> AI sessions that changed only whitespace of that line (finding D24 tolerance)
+        self.optional = set()     # keys written *during* an operation (conflict resolution): AI attribution allowed, not required
 
     def record(self, line, author):
         k = key(line)
@@ -73,8 +75,10 @@ DEFAULT_PROFILE = dict(
     intraline=True,            # intra-line modifications
     reindent=True,             # whitespace-only edits
     human_ckpt_rate=0.0,       # probability of an IDE-style human checkpoint before a human edit
-    ckpt_on_pending=True,      # force a human checkpoint before human edits on files with pending INITIAL claims (finding D3')
+    human_edit_on_pending_unreported=True,  # a person edits a file that carries pending INITIAL claims without any checkpoint (finding D3' shape)
     reindent_delete_combo=True,   # a re-indent sharing a checkpoint interval with other edits of the person (finding D13 shape)
+    ai_ws_touch_strict=True,      # a line whose whitespace an AI session changed must not be credited to that session (finding D24 when False)
+    slow_path_strict_notes=True,  # assert every line listed by notes of the full rebase/cherry-pick replay (finding D16 when False: only added lines)
     reindent_committed_ai=True,   # whitespace-only edits of AI lines already contained in HEAD (finding D17)
 )
 
@@ -103,6 +107,8 @@ class Scenario:
         self._validated = set()  # (commit, blob) pairs already validated
         self.inconclusive = None
         self.branch_n = 0
+        self._slow_commits = set()
+        self._trace_size = -1
         self.ws_keys = set()       # keys of lines that some commit changed in whitespace only (finding D17 class)
         self._ws_scanned = set()
         self.exempt_ws_committed = not self.profile.get("reindent_committed_ai", True)
@@ -192,10 +198,19 @@ class Scenario:
             a = self.rng.randrange(len(lines)); b = min(len(lines), a + self.rng.choice([1, 2, 4]))
             how = self.rng.choice(["in", "tab", "trail"])
             idx = list(range(a, b))
-            if False and committed_keys is not None:
+            if self.exempt_ws_committed and committed_keys is not None:
+                # finding D17 shape: whitespace-only edit of an AI line that HEAD already contains; remember the key so that
+                # completeness is not asserted for it later (the commit that does it may become unreachable, e.g. after reset)
+                for i in idx:
+                    if key(lines[i]) in committed_keys and self.ledger.expected(lines[i]) != "human":
+                        self.ws_keys.add(key(lines[i]))
+            if False:
                 # finding D17: a whitespace-only edit of an AI line that an earlier commit already contains
                 # makes the line human; keep that shape out of random exploration while the finding is open
                 idx = [i for i in idx if not (key(lines[i]) in committed_keys and self.ledger.expected(lines[i]) != "human")]
+            if author != "human":
+                for i in idx:
+                    self.ledger.ws_touch.setdefault(key(lines[i]), set()).add(author)
             for i in idx:
                 if how == "in":
                     lines[i] = "  " + lines[i]
@@ -262,12 +277,12 @@ class Scenario:
         author = author or self.rng.choice(["human"] + self.sessions)
         lines = self.read(f, repo)
         ck = None
-        if False:
+        if self.exempt_ws_committed:
             hl = self.w.ogit("cat-file", "blob", "HEAD:" + f, cwd=repo, raw=True)
             ck = {key(l) for l in N.split_lines(hl.out.decode("utf-8", "replace"))} if hl.rc == 0 else set()
         if author == "human":
             do_ck = ckpt if ckpt is not None else (self.rng.random() < self.profile["human_ckpt_rate"])
-            if not do_ck and self.profile["ckpt_on_pending"] and f in self.pending_initial_files(repo):
+            if not do_ck and (not self.profile["human_edit_on_pending_unreported"]) and f in self.pending_initial_files(repo):
                 do_ck = True
             if do_ck:
                 w.human_ckpt([f], cwd=repo)
@@ -367,6 +382,8 @@ class Scenario:
             inv = N.check_note_invariants(note, obj, nr.tree_paths(obj), lambda p, o=obj: len(nr.file_lines(o, p) or []))
             for rule, detail in inv:
                 self.violation("C05/" + rule, commit=obj, detail=detail, where=where)
+            slow = obj in self.slow_path_commits()
+            dadd = self.diff_added(obj) if (slow and nr is self.nr and self.profile.get("slow_path_strict_notes", True) is False) else None
             for path2, sess in note.files.items():
                 ls = self.show_lines(obj, path2) if nr is self.nr else None
                 if nr is not self.nr:
@@ -378,8 +395,33 @@ class Scenario:
                     s = self.h2s.get(h, h)
                     for i in lineset:
                         if 1 <= i <= len(ls):
+                            if dadd is not None and i not in dadd.get(path2, ()):
+                                # finding D16: notes written by the full replay of rebase / cherry-pick list lines their commit
+                                # did not add; while it is open only the lines the commit added (what blame consults) are asserted
+                                self.stats["slow_path_extra_lines_skipped"] += 1
+                                continue
                             self.stats["note_ai_lines_checked"] += 1
                             self._sound(ls[i - 1], s, "note", where, commit=obj, file=path2, line=i)
+
+    def slow_path_commits(self):
+        """Commits whose note was written by the full replay of a rebase / cherry-pick (from the H-trace stream)."""
+        try:
+            size = os.path.getsize(self.w.trace_path)
+        except OSError:
+            return self._slow_commits
+        if size == self._trace_size:
+            return self._slow_commits
+        self._trace_size = size
+        slow_pids = set()
+        res = set()
+        for t in self.w.trace():
+            k = t.get("kind")
+            if k in ("slow_path_rebase", "slow_path_cherry_pick"):
+                slow_pids.add(t.get("pid"))
+            elif k == "notes_add_batch" and t.get("pid") in slow_pids:
+                res.update(t.get("commits", []))
+        self._slow_commits = res
+        return res
 
     def _sound(self, text, got, via, where, **kw):
         """C03: reported AI(got) only if the ledger says got wrote this content."""
@@ -391,11 +433,15 @@ class Scenario:
             return
         exp = self.ledger.expected(text)
         if got != exp:
+            if not self.profile.get("ai_ws_touch_strict", True) and got in self.ledger.ws_touch.get(key(text), ()):
+                # finding D24: after a stash round trip a line whose whitespace an AI session changed is credited to that session
+                self.stats["ws_touch_tolerated"] += 1
+                return
             self.violation("C03/unsound-" + via, text=text, ledger=exp, got=got, where=where, **kw)
 
     def scan_ws_changes(self, tip="HEAD"):
         """Record keys of lines that some commit of `tip`'s history changed in whitespace only."""
-        for c in self.w.ogit("rev-list", tip).split():
+        for c in self.w.ogit("rev-list", "--branches", tip).split():
             if c in self._ws_scanned:
                 continue
             self._ws_scanned.add(c)
@@ -430,7 +476,7 @@ class Scenario:
                 self.stats["blame_lines"] += 1
                 if got != "human":
                     self._sound(l, got, "blame", where, file=f, line=i)
-                if complete and not self.ledger.is_decoy(l) and not (self.exempt_ws_committed and key(l) in self.ws_keys):
+                if complete and not self.ledger.is_decoy(l) and key(l) not in self.ledger.optional and not (self.exempt_ws_committed and key(l) in self.ws_keys):
                     exp = self.ledger.expected(l)
                     if exp != "human":
                         self.stats["ai_lines_expected"] += 1
@@ -517,7 +563,7 @@ class Scenario:
                     if ws_only:
                         self.ws_keys.add(key(l))
                         self.stats["ws_only_changed_lines"] += 1
-                    if exp != "human" and complete and not (ws_only and self.exempt_ws_committed):
+                    if exp != "human" and complete and key(l) not in self.ledger.optional and not (ws_only and self.exempt_ws_committed):
                         self.stats["ai_lines_expected"] += 1
                         if exp not in got:
                             self.violation(rule + "/missing-from-note", commit=commit, file=f, line=i, text=l, ledger=exp, got=got, where=where)
